@@ -97,6 +97,25 @@ theorem isGradAt_sqdist (C : CVec ℝ n → Prop) (P : CVec ℝ n → CVec ℝ n
   constructor <;> nlinarith [s1, s2, s4, v1, v2]
 
 
+/-- **the distance to a convex set** (guarded square root, as `SetDistance.__call__` writes it) has the gradient
+    `(x − P x)/‖x − P x‖` at every `x` outside the set -/
+theorem isGradAt_dist (C : CVec ℝ n → Prop) (P : CVec ℝ n → CVec ℝ n) (hP : IsProjection C P)
+    (x : CVec ℝ n) (hx : sumAbs2 (vsub x (P x)) ≠ 0) :
+    IsGradAt (fun z => l2normGuarded (sumAbs2 (vsub z (P z)))) x
+      (fun i => Cx.divr (vsub x (P x) i) (norm2 (vsub x (P x)))) := by
+  intro d
+  have h := (isGradAt_sqdist C P hP x d).const_mul 2
+  have h2 : HasDerivAt (fun t => sumAbs2 (vsub (along x d t) (P (along x d t))))
+      (2 * reInner (vsub x (P x)) d) 0 := HasDerivAt.congr' h (fun t => by ring) rfl
+  have h3 := h2.sqrt (by simp only [along_zero]; exact hx)
+  simp only [along_zero] at h3
+  refine HasDerivAt.congr' h3 (fun t => l2normGuarded_eq _ (sumAbs2_nonneg _)) ?_
+  rw [reInner_eq, reInner_eq, Finset.mul_sum, Finset.sum_div]
+  refine Finset.sum_congr rfl (fun i _ => ?_)
+  simp only [Cx.divr_re, Cx.divr_im, norm2, hasSqrt_real]
+  have hne : Real.sqrt (sumAbs2 (vsub x (P x))) ≠ 0 := (Real.sqrt_ne_zero (sumAbs2_nonneg _)).mpr hx
+  field_simp
+
 /-! ### what `grad` returns at the kinks of the l1 norm is a sub-gradient -/
 
 /-- Cauchy–Schwarz in `ℂ ≅ ℝ²` for a multiplier of modulus at most one -/
